@@ -11,6 +11,7 @@ mod s_determ;
 mod s_engine;
 mod s_expr;
 mod s_limits;
+mod s_snapshot;
 mod s_symbols;
 mod s_versions;
 
@@ -36,6 +37,7 @@ fn main() {
         "chainpost" => s_chain::post(&opts),
         "versions" => s_versions::run(&opts),
         "symbols" => s_symbols::run(&opts),
+        "snapshot" => s_snapshot::run(&opts),
         other => {
             eprintln!("unknown stream {other}");
             std::process::exit(2);
